@@ -30,6 +30,7 @@
 (*   server    "plain" | "tls" | "unix" | "tls2" (TLS offering HTTP/2) |   *)
 (*             "h2c" (HTTP/2 without TLS, and HTTP/1.1)                    *)
 (*   http2     -http2 (default true)     h2c   -h2c                        *)
+(*   hosthdr   -header "Host: virtual.example": the request's host          *)
 (*   trust     "na" | "insecure" | "rootcert" | "none"   (tls only)        *)
 (*   format    "http" | "json"                                             *)
 (*   lazy      -lazy: the list is read while attacking and its end stops   *)
@@ -59,7 +60,7 @@ Min(a, b) == IF a <= b THEN a ELSE b
 Base == [server |-> "plain", trust |-> "na", format |-> "http", lazy |-> TRUE, bad |-> "none", rate |-> 0, maxw |-> 1, workers |-> 1,
          name |-> "", hdr |-> FALSE, body |-> FALSE, chunked |-> FALSE, maxbody |-> -1, redirects |-> "default", keepalive |-> TRUE,
          timeout |-> "default", connectto |-> FALSE, laddr |-> FALSE, prom |-> FALSE, maxconn |-> 0, hosts |-> 1,
-         http2 |-> TRUE, h2c |-> FALSE]
+         http2 |-> TRUE, h2c |-> FALSE, hosthdr |-> FALSE]
 
 Valid(c) ==
     /\ c.server \in {"plain", "tls", "unix", "tls2", "h2c"} /\ c.format \in {"http", "json"} /\ c.bad \in {"none", "late"}
@@ -94,6 +95,7 @@ Single ==
           [Base EXCEPT !.server = "tls", !.trust = "insecure", !.http2 = FALSE],
           [Base EXCEPT !.server = "h2c", !.h2c = TRUE], [Base EXCEPT !.server = "h2c"], [Base EXCEPT !.server = "h2c", !.h2c = TRUE, !.lazy = FALSE, !.rate = 0, !.maxw = 3],
           [Base EXCEPT !.server = "h2c", !.h2c = TRUE, !.body = TRUE, !.hdr = TRUE, !.maxbody = 2],
+          [Base EXCEPT !.hosthdr = TRUE], [Base EXCEPT !.hosthdr = TRUE, !.hdr = TRUE, !.format = "json"], [Base EXCEPT !.hosthdr = TRUE, !.connectto = TRUE],
           [Base EXCEPT !.maxconn = 1], [Base EXCEPT !.maxconn = 1, !.maxw = 3], [Base EXCEPT !.connectto = TRUE, !.hosts = 2],
           [Base EXCEPT !.lazy = FALSE, !.rate = 0, !.maxw = 3, !.maxconn = 1], [Base EXCEPT !.lazy = FALSE, !.rate = 0, !.maxw = 3, !.maxconn = 2],
           [Base EXCEPT !.lazy = FALSE, !.rate = 0, !.maxw = 3, !.maxconn = 1, !.connectto = TRUE, !.hosts = 2],
@@ -139,7 +141,7 @@ Hits(o) == SelectSeq(o.results, LAMBDA r : r.kind = "hit")
 Ends(o) == SelectSeq(o.results, LAMBDA r : r.kind = "end")
 ReqsOf(o, s) == {i \in 1..Len(o.reqs) : o.reqs[i].seq = s}
 Overlap(o, i) == Cardinality({j \in 1..Len(o.reqs) : o.reqs[j].start <= o.reqs[i].start /\ o.reqs[i].start < o.reqs[j].end})
-OverlapH(o, i) == Cardinality({j \in 1..Len(o.reqs) : o.reqs[j].host = o.reqs[i].host /\ o.reqs[j].start <= o.reqs[i].start /\ o.reqs[i].start < o.reqs[j].end})
+OverlapH(o, i) == Cardinality({j \in 1..Len(o.reqs) : o.reqs[j].dialhost = o.reqs[i].dialhost /\ o.reqs[j].start <= o.reqs[i].start /\ o.reqs[i].start < o.reqs[j].end})
 MaxConc(o) == IF o.reqs = <<>> THEN 0 ELSE CHOOSE m \in {Overlap(o, i) : i \in 1..Len(o.reqs)} : \A i \in 1..Len(o.reqs) : Overlap(o, i) <= m
 
 ResultOK(c, o, r) ==
@@ -168,7 +170,7 @@ RequestOK(c, o, q) ==
     /\ LET r == o.results[CHOOSE k \in 1..Len(o.results) : o.results[k].seq = q.seq]
            i == r.idx
        IN /\ i \in 1..K
-          /\ (c.server # "unix" => q.host = HostOf(c, i))           \* the name of the URL as written; with -connect-to the mapped address was dialled
+          /\ (c.server # "unix" \/ c.hosthdr => q.host = (IF c.hosthdr THEN "virtual.example" ELSE HostOf(c, i)))   \* a Host header sets the request's host           \* the name of the URL as written; with -connect-to the mapped address was dialled
           /\ (q.path # "/redirect/0" =>
                 /\ q.method = MethodOf(c, i) /\ q.path = PathOf(c, i)
                 /\ q.body = BodyOf(c, i)
